@@ -158,6 +158,26 @@ def _contains(rm, x):
     return (t, li)
 
 
+def other_grammar_activity(ctx, w):
+    """F13 (history), unjudged: in between, another grammar is extracted from the SAME classes in the other depth-counting mode
+    and programs are created from it; nothing of that may show in the metadata of the judged grammar's programs"""
+    from geneticengine.grammar.grammar import extract_grammar
+    from geneticengine.representations.tree.initializations import MaxDepthDecider
+    from geneticengine.representations.tree.treebased import TreeBasedRepresentation
+    from ..seams import SimRandom
+
+    ctx.faults["carry_over"] += 1
+    ctx.stat("history:other-depth-mode-grammar")
+    try:
+        g2 = extract_grammar(w.built.considered(), w.built.cls[w.spec["start"]], True)
+        rnd0 = SimRandom(ctx, "uniform", log=False)
+        rep2 = TreeBasedRepresentation(g2, MaxDepthDecider(rnd0, g2, g2.get_min_tree_depth() + 2))
+        for _ in range(2):
+            rep2.create_genotype(rnd0)
+    except Exception:
+        pass  # unjudged
+
+
 def run(ctx):
     H = ctx.H
     w = SynthWorld(ctx, feat=FEAT, reps=("tree", "tree", "tree", "ge", "sge", "dsge", "stack"), delta=(1, 2, 2, 3, 4), deciders=("grow", "full", "full", "pigrow", "progressive"))
@@ -172,6 +192,8 @@ def run(ctx):
         ctx.sample = w.describe()
         n_ops = 1 + H.draw(10 if ctx.tier == "quick" else 30)
         for _ in range(n_ops):
+            if H.draw(6) == 0:
+                other_grammar_activity(ctx, w)
             res = w.random_op({"create": 3, "map": 1, "mutate": 4, "crossover": 3})
             if res.foreign:
                 ctx.stat("foreign_failure:exception")
